@@ -45,3 +45,18 @@ Ltac other_p q p :=
 Ltac other_t t p :=
   let e := fresh "e" in let ne := fresh "ne" in
   destruct (Nat.eq_dec t p) as [e|ne]; [rewrite ?e in *; rewrite ?upd_eq in * | rewrite ?(upd_neq _ p t _ ne) in *].
+(* split conjunctions only (never introduces, never unfolds) *)
+Ltac rsplit := repeat match goal with |- _ /\ _ => split end.
+
+(* resolve [hget (upd h (badr k0) ..) (badr k)] for allocated blocks k, k0 *)
+Ltac hg BK :=
+  repeat (rewrite hget_mod by assumption);
+  repeat match goal with
+  | |- context [Nat.eqb (badr ?g ?k) (badr ?g ?k0)] =>
+      let e := fresh "e" in
+      destruct (Nat.eq_dec k k0) as [e|e];
+      [ rewrite ?e in *; rewrite Nat.eqb_refl
+      | let n := fresh "n" in assert (n : badr g k <> badr g k0) by (apply BK; assumption);
+        apply Nat.eqb_neq in n; rewrite n; apply Nat.eqb_neq in n ]
+  end; sp; try congruence.
+
